@@ -123,7 +123,8 @@ def _gen_c(ctx, rnd):
     def sv_event(sigb, pk, msg, pre, cls):
         got = vlib.run_call(bits.sig_verify, sigb, pk, msg, pre)
         dec = vlib.run_call(bu.der_decode_sig, sigb[:-1])
-        decok = "ok" in dec and all(isinstance(x, int) and 0 <= x < (1 << 600) for x in dec["ok"])
+        decok = ("ok" in dec and isinstance(dec["ok"], (tuple, list)) and len(dec["ok"]) == 2
+                 and all(isinstance(x, int) and not isinstance(x, bool) and 0 <= x < (1 << 600) for x in dec["ok"]))
         add(dict(op="sigverify", sig=list(sigb), pk=list(pk), msg=list(msg), pre=pre, accept=got.get("ok") == "OK",
                  decok=decok, dr=enc.num(dec["ok"][0]) if decok else [], ds=enc.num(dec["ok"][1]) if decok else []), cls)
 
